@@ -381,6 +381,13 @@ func execute(x *explore.X, doc *ast.Document, md mode) outcome {
 }
 
 func run(c *core.Ctx) {
+	runVisitor(c)
+	if !c.Expired() {
+		runTypeInfo(c)
+	}
+}
+
+func runVisitor(c *core.Ctx) {
 	maxDev := c.Pick(2, 3)
 	c.R.Rule = "case = (document of the pool, visitor form or parallel combination, placement of <= bound skip/break actions at callback events); non-trivial = at least one skip/break or a non-generic form; distinct by hash of (document, form, choice trace)"
 	c.R.Assumptions = []string{"the library parser builds the pool's ASTs (checked by C03)", "children of a node = its node-valued struct fields except Description, in source order (astx.Children)", "Go toolchain"}
@@ -462,6 +469,9 @@ func firstWords(s string, n int) string {
 }
 
 func replay(c *core.Ctx, p map[string]interface{}) (bool, string) {
+	if ti, _ := p["typeinfo"].(bool); ti {
+		return replayTypeInfo(p)
+	}
 	text, _ := p["text"].(string)
 	mi := int(p["mode"].(float64))
 	var choices []int
